@@ -44,6 +44,46 @@ pub struct Case {
     pub pools: Pools,
     pub entries: Vec<EGen>,
     pub queries: Vec<QGen>,
+    /// raw-rows sub-generator: unvalidated rows under synthetic namespace / author ids at byte-order boundaries
+    /// (namespace slot, author slots)
+    #[serde(default)]
+    pub raw: Option<(u8, Vec<u8>)>,
+}
+
+/// Synthetic ids at byte-order boundaries (used for namespaces and authors alike).
+pub fn boundary_id(slot: u8) -> [u8; 32] {
+    let mut x = [0x55u8; 32];
+    match slot % 8 {
+        0 => [0u8; 32],
+        1 => {
+            let mut z = [0u8; 32];
+            z[31] = 1;
+            z
+        }
+        2 => [0xFFu8; 32],
+        3 => {
+            let mut f = [0xFFu8; 32];
+            f[31] = 0xFE;
+            f
+        }
+        4 => x,
+        5 => {
+            x[31] = 0x56;
+            x
+        }
+        6 => {
+            x[30] = 0xFF;
+            x[31] = 0xFF;
+            x
+        }
+        _ => {
+            // the carry successor of slot 6
+            x[29] = 0x56;
+            x[30] = 0;
+            x[31] = 0;
+            x
+        }
+    }
 }
 
 fn kf() -> impl Strategy<Value = KF> {
@@ -120,9 +160,14 @@ pub struct Resolved {
 }
 
 pub fn resolve(q: &QGen, authors: &[u8], keys: &[Vec<u8>]) -> Resolved {
+    resolve_with(q, authors, keys, false)
+}
+
+pub fn resolve_with(q: &QGen, authors: &[u8], keys: &[Vec<u8>], raw: bool) -> Resolved {
     let author_id = match q.author {
         0 => None,
         7 => Some(iroh_docs::Author::from_bytes(&[0x42; 32]).id()),
+        n if raw => Some(AuthorId::from(&boundary_id(authors[(n as usize - 1) % authors.len()]))),
         n => Some(author(authors[(n as usize - 1) % authors.len()]).id()),
     };
     let keyf = match &q.keyf {
@@ -340,8 +385,9 @@ impl Prop for C05 {
 
     fn strategy(tier: Tier) -> BoxedStrategy<Case> {
         let nq = tier.pick(40, 60);
-        (prop::bool::weighted(0.1), pools(8), vec(egen(), 0..=16), vec(qgen(), 1..=nq))
-            .prop_map(|(file, pools, entries, queries)| Case { file, pools, entries, queries })
+        let raw = prop::option::weighted(0.2, (0u8..8, vec(0u8..8, 1..=3)));
+        (prop::bool::weighted(0.1), pools(8), vec(egen(), 0..=16), vec(qgen(), 1..=nq), raw)
+            .prop_map(|(file, pools, entries, queries, raw)| Case { file, pools, entries, queries, raw })
             .boxed()
     }
 
@@ -349,33 +395,55 @@ impl Prop for C05 {
         let mut o = Outcome::default();
         let r: R<()> = (|| {
             let keys = c.pools.keys();
-            let authors = c.pools.authors();
-            let nssec = namespace(c.pools.ns).clone();
-            let ns = nssec.id();
-            let entries: Vec<SignedEntry> = c.entries.iter().map(|e| sign(&nssec, &to_espec(e, &authors, &keys))).collect();
             verif::set_clock(Some(T0 + 3));
             let mut st = AnyStore::new(ctx, c.file)?;
-            let model = match populate(&ctx.rt, &mut st.store, &nssec, &entries) {
-                Ok(m) => m,
-                Err(e) => {
-                    o.class("skipped/ingress-disagrees-with-model");
-                    let _ = e;
-                    st.cleanup();
-                    return Ok(());
+            let (ns, authors, contents, raw) = match &c.raw {
+                None => {
+                    let authors = c.pools.authors();
+                    let nssec = namespace(c.pools.ns).clone();
+                    let ns = nssec.id();
+                    let entries: Vec<SignedEntry> = c.entries.iter().map(|e| sign(&nssec, &to_espec(e, &authors, &keys))).collect();
+                    let model = match populate(&ctx.rt, &mut st.store, &nssec, &entries) {
+                        Ok(m) => m,
+                        Err(_) => {
+                            o.class("skipped/ingress-disagrees-with-model");
+                            st.cleanup();
+                            return Ok(());
+                        }
+                    };
+                    let contents = dump(&mut st.store, ns)?;
+                    if contents != model.dump() {
+                        o.class("skipped/ingress-disagrees-with-model");
+                        st.cleanup();
+                        return Ok(());
+                    }
+                    (ns, authors, contents, false)
+                }
+                Some((ns_slot, author_slots)) => {
+                    // unvalidated rows under boundary ids, through the crate's own put; a neighbouring document too
+                    o.class("raw-rows");
+                    let ns = iroh_docs::NamespaceId::from(&boundary_id(*ns_slot));
+                    let neighbour = iroh_docs::NamespaceId::from(&boundary_id(ns_slot ^ 1));
+                    es(st.store.import_namespace(iroh_docs::Capability::Read(ns)))?;
+                    es(st.store.import_namespace(iroh_docs::Capability::Read(neighbour)))?;
+                    for (i, e) in c.entries.iter().enumerate() {
+                        let a = boundary_id(author_slots[crate::engine::idx(e.a, author_slots.len())]);
+                        let k = &keys[crate::engine::idx(e.k, keys.len())];
+                        let (hash, len) = content(e.c);
+                        let target = if i % 4 == 3 { neighbour } else { ns };
+                        let fe = crate::wire::forge_entry(&[1u8; 64], &[2u8; 64], target.as_bytes(), &a, k, len, hash.as_bytes(), T0 + e.t as u64)?;
+                        es(verif::store_put(&mut st.store, fe))?;
+                    }
+                    let contents = dump(&mut st.store, ns)?;
+                    (ns, author_slots.clone(), contents, true)
                 }
             };
-            let contents = dump(&mut st.store, ns)?;
-            if contents != model.dump() {
-                o.class("skipped/ingress-disagrees-with-model");
-                st.cleanup();
-                return Ok(());
-            }
             if c.file {
                 st = st.reopen()?;
                 o.class("file+reopen");
             }
             for q in &c.queries {
-                let r = resolve(q, &authors, &keys);
+                let r = resolve_with(q, &authors, &keys, raw);
                 o.class(if r.latest { "q/latest-per-key" } else if r.by_key { "q/flat-by-key" } else { "q/flat-by-author" });
                 if let KeyFilter::Prefix(p) = &r.keyf {
                     if p.last() == Some(&0xFF) {
@@ -424,6 +492,7 @@ impl Prop for C05 {
         vec![
             "latest-per-key semantics as documented on Query: key filter before grouping, author filter after grouping, then the empty filter".into(),
             "ties between authors at the greatest timestamp: any maximum is accepted (validity predicate) or the query is skipped and counted".into(),
+            "the raw-rows sub-generator (20 % of cases, class 'raw-rows') writes unvalidated rows under synthetic namespace / author ids at byte-order boundaries (00..00, 00..01, FF..FF, FF..FE, X, X+1, ..FFFF and its carry successor) plus a neighbouring document; it exercises bound arithmetic only".into(),
         ]
     }
 }
